@@ -177,6 +177,13 @@ func (server *Server) ServeCodec(codec ServerCodec) {
 			})
 		}
 	}
+	// Let the decode queue dispatch every request that was already read
+	// before waiting for the handlers: it is still adding to the wait group.
+	drained := make(chan struct{})
+	pipeline.Schedule(func() {
+		close(drained)
+	})
+	<-drained
 	wg.Wait()
 	server.mutex.Lock()
 	server.deleteCodec(codec)
@@ -530,6 +537,13 @@ func (server *Server) listen(sock socket.Socket, address string, New NewServerCo
 			}
 			if err == io.EOF || err == io.ErrUnexpectedEOF {
 				if atomic.CompareAndSwapInt32(&svrctx.closed, 0, 1) {
+					// Let the decode queue dispatch every request that was
+					// already read before waiting for the handlers.
+					drained := make(chan struct{})
+					svrctx.pipeline.Schedule(func() {
+						close(drained)
+					})
+					<-drained
 					svrctx.wg.Wait()
 					server.mutex.Lock()
 					delete(codecs, svrctx.codec)
